@@ -72,7 +72,7 @@ CHECKS["C14"] = ("model_checking",
 CHECKS["C10"] = ("model_checking",
                  "TLC exhaustive model checking of Stream.tla (reader / parsers / consumer / failure interleavings); schedules simulated from "
                  "the spec replayed on the real MessageStream through a scripted conn + gating parser; TLC trace validation of every "
-                 "recorded event log against StreamExt.tla; refinement Stream => StreamExt checked by TLC (StreamRefine.tla)",
+                 "recorded event log against StreamExt.tla; refinement Stream => StreamExt checked by TLC (StreamRefine.tla); 11 styles of randomly scheduled executions incl. jumbo bursts and EOF on a frame boundary",
                  "Stream.tla mirrors util/stream.go one action per channel operation; TLC checks DeliveredIntact, NoDupNoInvent, NeverAhead, "
                  "AllDeliveredAtQuiescence, ErrorAtMostOnce, ErrorIffFailed, PoolConservation and liveness on small pools for every chunking "
                  "and failure point, and refutes the aliasing variant. The same spec simulated with the real constants produces coarse "
@@ -86,7 +86,7 @@ CHECKS["C11"] = ("model_checking",
                  "StreamOut.tla: producers, Outbound channel (cap 1), single writer; TLC checks once-only, submitted-before-written, "
                  "per-producer order and eventual writing over all interleavings of 3 producers. On the code 1-32 producer goroutines submit "
                  "xid-tagged real messages (8 B - 65 535 B); the recorded Write calls are concatenated, re-framed by header length and validated "
-                 "by TLC event by event.",
+                 "by TLC event by event; executions with a Write that accepts part of a frame and times out, and with an application shutdown in mid-traffic, are included (StreamOut.tla: WFail, AppShutdown / Drain / WClosed).",
                  "Trusted: TLC, Json, the rig. Real schedules are stress-sampled (write delays widen the races).", "4/C11")
 
 
